@@ -84,3 +84,61 @@ package dns
 //@   requires rr != nil
 //@   ensures hi: ret0 == (rr.Hdr.Ttl / 16777216) * 16
 //@   pure
+
+// ---- the OPT pseudo-record's fixed fields (RFC 6891 6.1.2/6.1.3, RFC 3225): CLASS is the UDP payload size; TTL is
+// extended-RCODE(8) VERSION(8) DO(1) CO(1) Z(14), most significant first; every setter changes its own bits only
+//@ func (*OPT).Version [C01]
+//@   requires rr != nil
+//@   ensures ret0 == (rr.Hdr.Ttl / 65536) % 256
+//@   pure
+//@ func (*OPT).SetVersion [C01 C16]
+//@   requires rr != nil
+//@   ensures own: (rr.Hdr.Ttl / 65536) % 256 == v
+//@   ensures rest: rr.Hdr.Ttl / 16777216 == old(rr.Hdr.Ttl) / 16777216 && rr.Hdr.Ttl % 65536 == old(rr.Hdr.Ttl) % 65536
+//@   modifies H.RR_Header.Ttl.v
+//@ func (*OPT).UDPSize [C01]
+//@   requires rr != nil
+//@   ensures ret0 == rr.Hdr.Class
+//@   pure
+//@ func (*OPT).SetUDPSize [C01 C16]
+//@   requires rr != nil
+//@   ensures rr.Hdr.Class == size
+//@   modifies H.RR_Header.Class.v
+//@ func (*OPT).Do [C01]
+//@   requires rr != nil
+//@   ensures ret0 == ((rr.Hdr.Ttl / 32768) % 2 == 1)
+//@   pure
+//@ func (*OPT).SetDo [C01 C16]
+//@   requires rr != nil
+//@   ensures own: ((rr.Hdr.Ttl / 32768) % 2 == 1) == (len(do) != 1 || do[0])
+//@   ensures rest: rr.Hdr.Ttl / 65536 == old(rr.Hdr.Ttl) / 65536 && rr.Hdr.Ttl % 32768 == old(rr.Hdr.Ttl) % 32768
+//@   modifies H.RR_Header.Ttl.v
+//@ func (*OPT).Co [C01]
+//@   requires rr != nil
+//@   ensures ret0 == ((rr.Hdr.Ttl / 16384) % 2 == 1)
+//@   pure
+//@ func (*OPT).SetCo [C01 C16]
+//@   requires rr != nil
+//@   ensures own: ((rr.Hdr.Ttl / 16384) % 2 == 1) == (len(co) != 1 || co[0])
+//@   ensures rest: rr.Hdr.Ttl / 32768 == old(rr.Hdr.Ttl) / 32768 && rr.Hdr.Ttl % 16384 == old(rr.Hdr.Ttl) % 16384
+//@   modifies H.RR_Header.Ttl.v
+//@ func (*OPT).Z [C01]
+//@   requires rr != nil
+//@   ensures ret0 == rr.Hdr.Ttl % 16384
+//@   pure
+//@ func (*OPT).SetZ [C01 C16]
+//@   requires rr != nil
+//@   ensures own: rr.Hdr.Ttl % 16384 == z % 16384
+//@   ensures rest: rr.Hdr.Ttl / 16384 == old(rr.Hdr.Ttl) / 16384
+//@   modifies H.RR_Header.Ttl.v
+
+// IsEdns0: the last OPT record of the additional section (RFC 6891 6.1.1 allows it anywhere), nil when there is none
+//@ func (*Msg).IsEdns0 [C01 C09]
+//@   opt no-safety
+//@   requires dns != nil
+//@   ensures none: ret0 == nil ==> (forall k in 0..len(dns.Extra) :: hdr(dns.Extra[k]).Rrtype != 41)
+//@   exit found: ret0 != nil ==> 0 <= i && i < len(dns.Extra) && hdr(dns.Extra[i]).Rrtype == 41 && asptr(dns.Extra[i], OPT) == ret0
+//@   loop 1 invariant -1 <= i && i < len(dns.Extra)
+//@   loop 1 invariant forall k in i+1..len(dns.Extra) :: hdr(dns.Extra[k]).Rrtype != 41
+//@   assume at "return dns.Extra[i].(*OPT)" typetable: isptrtype(dns.Extra[i], OPT)
+//@   pure
